@@ -87,8 +87,19 @@ def b_all(xs):
     return r
 
 
+KEEP = []      # expressions whose ast ids key the tables below: kept alive so that ids are never reused within a path
 RANGES = {}    # z3 ast id -> list of (lo, hi) intervals known to contain an integer input symbol
 DOMAINS = {}   # z3 ast id -> frozenset of admissible values (8-bit input symbols); reset per path
+
+
+def set_domain(expr, dom):
+    DOMAINS[expr.get_id()] = dom
+    KEEP.append(expr)
+
+
+def set_range(expr, intervals):
+    RANGES[expr.get_id()] = intervals
+    KEEP.append(expr)
 
 
 def dom_of(x):
